@@ -22,7 +22,7 @@ func init() {
 	Register(&Monitor{
 		ID:         "C06",
 		Level:      "exploration",
-		Exhaustive: []string{"deep", "long", "mixed", "fnargs", "utf8edge"},
+		Exhaustive: []string{"deep", "long", "huge", "mixed", "fnargs", "utf8edge"},
 		Rule: "every recursive construct of the grammar nested to depth 10, 10^2, ... up to the tier's maximum ( ((((1)))), a[a[a[...]]], not(not(...)), -(-(...)), a/((((b)))) - the parseStep/parseSequence cycle -, a/(a/(a/(...))), unterminated a/((((, f(f(f(...))), (a|(a|(...))) ) and every iterative construct to length 3*10^k (a/a/..., 1+1+..., a|a|..., a or a ..., a[1][1]..., a//a..., f(1,1,...), -----1, long names, long strings, long numbers), each through Compile, CompileWithNS (nil, empty, bound, unbound maps) and MustCompile; " +
 			"every ORDERED PAIR of recursive constructs alternating (a[not(a[not(...)])], (a[(a[...])]), f(-(f(-(...)))), ...) to depth 6..1000 - a build step that repeats work per level turns such inputs into a hang; namespace maps with the empty string and malformed strings as keys; " +
 			"grammar-generated valid expressions and their truncations at every byte; every function name x every list of 0-3 arguments over 9 argument kinds (number, string, path, boolean call, invalid regex, parenthesised and negated literals, variable, comparison); seeded random token strings over the token alphabet plus arbitrary bytes (NUL, invalid UTF-8, non-ASCII name characters). The worker's maximum goroutine stack is lowered to 64 MiB so that unbounded recursion surfaces at depth ~10^5. " +
@@ -33,7 +33,8 @@ func init() {
 		Families: []Family{
 			witnessFamily("C06"),
 			{Name: "deep", N: func(t string) int { return len(c06Deep(t)) }, Run: func(c *Case) { c06Construct(c, c06Deep(c.Tier)[c.Index], "deep") }},
-			{Name: "long", N: func(t string) int { return len(c06Long(t)) }, Run: func(c *Case) { c06Construct(c, c06Long(c.Tier)[c.Index], "long") }},
+			{CPUBudget: 30, Name: "long", N: func(t string) int { return len(c06LongBy(t, false)) }, Run: func(c *Case) { c06Construct(c, c06LongBy(c.Tier, false)[c.Index], "long") }},
+			{Name: "huge", N: func(t string) int { return len(c06LongBy(t, true)) }, Run: func(c *Case) { c06Construct(c, c06LongBy(c.Tier, true)[c.Index], "long") }},
 			{CPUBudget: 60, Name: "mixed", N: func(string) int { return len(c06Wrappers) * len(c06Wrappers) * len(c06MixedDepths) }, Run: c06Mixed},
 			{CPUBudget: 40, Name: "trunc", N: tierN(1500, 60000), Run: c06Trunc},
 			{CPUBudget: 40, Name: "fuzz", N: tierN(1000, 40000), Run: c06Fuzz},
@@ -103,7 +104,9 @@ func (s c06Spec) fullText() string {
 }
 
 func c06Long(t string) []c06Spec {
-	lens := []int{10, 1000, 100000, 1000000}
+	// (every rung matters: work that doubles per element is over in a millisecond at 10 and is cut short by the
+	// builder's depth limit at 1000 - it only shows between about 25 and 500)
+	lens := []int{10, 25, 40, 60, 100, 200, 400, 511, 1000, 100000, 1000000}
 	if t == "thorough" {
 		lens = append(lens, 3000000)
 	}
@@ -132,7 +135,34 @@ func c06Long(t string) []c06Spec {
 			c06Spec{Name: "spaces", Pre: " \t\n", Mid: "a", N: n},
 			c06Spec{Name: "../../..", Pre: "../", Mid: "..", N: n},
 			c06Spec{Name: "@a|@a...", Pre: "@a|", Mid: "@a", N: n},
+			c06Spec{Name: "//a//a//a...", Pre: "//a", Mid: "//a", N: n},
+			c06Spec{Name: ".//a//b/../...", Pre: ".//a//b/../", Mid: ".", N: n},
+			c06Spec{Name: "//*//*...", Pre: "//*", Mid: "//@x", N: n},
+			c06Spec{Name: "a/./././.", Pre: "a/./", Mid: ".", N: n},
+			c06Spec{Name: "a[b][c][b]...", Pre: "", Mid: "a", Post: "[b][c]", N: n},
+			c06Spec{Name: "a/b[1]/a/b[1]...", Pre: "a/b[1]/", Mid: "a", N: n},
+			c06Spec{Name: "//a[1]//a[1]...", Pre: "//a[1]", Mid: "//a", N: n},
+			c06Spec{Name: "a | b | a | b (spaces)", Pre: "a | b | ", Mid: "a", N: n},
+			c06Spec{Name: "f(f(..)) flat: string(a)=string(a)=...", Pre: "string(a)=", Mid: "1", N: n},
+			c06Spec{Name: "1 div 1 mod 1...", Pre: "1 div 1 mod ", Mid: "1", N: n},
+			c06Spec{Name: "a!=a!=...", Pre: "a!=", Mid: "a", N: n},
+			c06Spec{Name: "a<=a>=a...", Pre: "a<=a>=", Mid: "a", N: n},
+			c06Spec{Name: "p:a/p:a...", Pre: "p:a/", Mid: "p:a", N: n},
+			c06Spec{Name: "child::a/child::a...", Pre: "child::a/", Mid: "descendant::a", N: n},
+			c06Spec{Name: "ancestor::a/following::a...", Pre: "ancestor::a/following::a/", Mid: "preceding-sibling::a", N: n},
 		)
+	}
+	return out
+}
+
+// c06LongBy splits the iterative constructs into those of up to 1000 elements (a 30 s CPU budget per input is
+// ample: they compile in milliseconds) and the huge ones (default budget).
+func c06LongBy(t string, huge bool) []c06Spec {
+	var out []c06Spec
+	for _, sp := range c06Long(t) {
+		if (sp.N > 3000) == huge {
+			out = append(out, sp)
+		}
 	}
 	return out
 }
